@@ -9,9 +9,11 @@ Definition current (ks strlit_invalid : bool) : cfg :=
         true  (* fix15:  /repo cd0ad98 *)
         true  (* fixoid: /repo 80d28a9 (literal part; the node part is pinned by TestPlannerQuery) *)
         true  (* fixsb:  /repo eb88d1d *)
-        true. (* fixzone: /repo 87509de *)
+        true  (* fixzone: /repo 87509de *)
+        true  (* fixs3:  /repo 592dce7 *)
+        true. (* fixou:  /repo 4d3926a *)
 
 (* the tree as it was before any repair of this family *)
-Definition original (ks strlit_invalid : bool) : cfg := mkCfg ks strlit_invalid false false false false false false.
+Definition original (ks strlit_invalid : bool) : cfg := mkCfg ks strlit_invalid false false false false false false false false.
 (* the tree with every repair of this family *)
-Definition repaired (ks strlit_invalid : bool) : cfg := mkCfg ks strlit_invalid true true true true true true.
+Definition repaired (ks strlit_invalid : bool) : cfg := mkCfg ks strlit_invalid true true true true true true true true.
